@@ -480,7 +480,7 @@ func TestVerifC03(t *testing.T) {
 	r.SetBound(fmt.Sprintf("group layouts (1-3 groups, 1-2 channels per group, 1|3 frames per packet, int16|int32 payloads), 6 sequence numbers per group after sampling, every loss pattern and every batching into 5 read ticks with at most %d deviations (a lost packet or a later tick) from each of two default arrival patterns ('everything in the first tick' and 'two packets per tick, odd groups one packet behind'), map-iteration seeds 0..2; ring family: the same scripts with the packets written by the harness into a real shared-memory ring buffer (slots of 8192 bytes, "+
 		"every packet padded to the slot, the ring wraps during the execution) and read by the real AbacoRing (start, discardStale, ReadAllPackets, stop) as the source's producer, for the layouts "+
 		"12 channels x 339 frames int16 (packets of exactly 8192 bytes), 6 channels x 339 frames int32 (8192 bytes), 2 channels x 3 frames (68-byte packets), and groups of 12 and 1 channels x 339 frames "+
-		"(8192- and 734-byte packets interleaved in one ring); bursts of 0..6 packets per group and tick; every ReadAllPackets result also compared with the burst written", maxDev))
+		"(8192- and 734-byte packets interleaved in one ring); bursts of 0..6 packets per group and tick, map-iteration seed 0 (thorough: 0..2); every ReadAllPackets result also compared with the burst written", maxDev))
 	r.Note("ring family: AbacoRing.samplePackets (a wall-clock polling loop around ReadAllPackets that wants 100 packets) is replaced by one ReadAllPackets call after the harness wrote the sampled packets")
 	var layouts []v03Layout
 	for _, frames := range []int{1, 3} {
@@ -525,7 +525,7 @@ func TestVerifC03(t *testing.T) {
 	for i := range layouts {
 		l := &layouts[i]
 		nseeds := 1
-		if len(l.groups) > 1 {
+		if len(l.groups) > 1 && !(l.ring && !r.Thorough()) { // quick: the ring family runs with map-iteration seed 0 only
 			nseeds = 3
 		}
 		for seed := 0; seed < nseeds; seed++ {
